@@ -38,6 +38,7 @@ class Knobs:
     p_extern: float = 0.1
     hostile_names: bool = False
     precision: str = "f32"
+    p_datadiv: float = 0.0
     unsafe_twin: bool = False  # perturb one site to be unsafe by one
     const_sizes: float = 0.3  # probability that a dimension is a literal
     nonzero_lo: float = 0.2
@@ -261,6 +262,10 @@ class _Gen:
             return r.choice(["0.0", "1.0", "2.0", "0.5", "3.0", "-1.0"])
         if roll < 0.75:
             op = r.choice(["+", "+", "*", "-", "*"])
+            if self.kn.precision in ("f32", "f64") and r.random() < self.kn.p_datadiv:
+                # data division whose divisor is itself a product / quotient / difference (grouping matters)
+                d = r.choice([f"({self.rhs(2)} * {self.rhs(2)})", f"({self.rhs(2)} / {self.rhs(2)})", f"({self.rhs(2)} - {self.rhs(2)})", self.rhs(2)])
+                return f"{self.rhs(depth+1)} / {d}"
             return f"{self.rhs(depth+1)} {op} {self.rhs(depth+1)}"
         if roll < 0.8:
             return f"-({self.rhs(depth+1)})" if r.random() < 0.5 else f"-{self.read_any()}"
